@@ -1,6 +1,7 @@
 import SkfemVerif.Model.Poly
 import SkfemVerif.Gen.TraceFacts
 import SkfemVerif.Props.C09
+import SkfemVerif.Lemmas.Traces
 import Mathlib.Algebra.Order.Field.Rat
 import Mathlib.Algebra.Order.BigOperators.Group.Finset
 import Mathlib.Tactic.Ring
@@ -28,10 +29,19 @@ order, same local DOF index).
 namespace Skv.C03b
 open Skv
 
-/-- the point `origin + Σ_k s_k · dirs_k` -/
-def facetPoint (origin : List ℚ) (dirs : List (List ℚ)) (s : List ℚ) : List ℚ :=
-  (List.range origin.length).map (fun i =>
-    origin.getD i 0 + ((List.range dirs.length).map (fun k => s.getD k 0 * (dirs.getD k []).getD i 0)).sum)
+/- `facetPoint origin dirs s` (the point `origin + Σ_k s_k · dirs_k`), `traceAt` (the one-sided trace
+   of `u_h = Σ_i x[dof i] φ_i` on a reference facet) and `WFElem` (lengths of the generated data) are
+   defined in `Lemmas/Traces.lean`:
+
+     def facetPoint (origin : List ℚ) (dirs : List (List ℚ)) (s : List ℚ) : List ℚ :=
+       (List.range origin.length).map (fun i => origin.getD i 0 +
+         ((List.range dirs.length).map (fun k => s.getD k 0 * (dirs.getD k []).getD i 0)).sum)
+     def traceAt vals fmaps dof x f s : ℚ :=
+       ((List.range vals.length).map (fun i => x (dof i) * (vals.getD i []).eval
+         (facetPoint (fmaps.getD f ([], [])).1 (fmaps.getD f ([], [])).2 s))).sum
+     def WFElem dim vals fmaps : Prop :=
+       (∀ v ∈ vals, ∀ t ∈ v, t.2.length = dim) ∧
+       (∀ fm ∈ fmaps, fm.1.length = dim ∧ ∀ d ∈ fm.2, d.length = dim) -/
 
 /-- **meaning of the restriction**: evaluating `p ∘ γ` at the facet parameters `s` is evaluating `p` at
     the point `γ(s)` (exponent vectors of `p` have the length of `origin`; every direction has that
@@ -40,17 +50,23 @@ theorem C03_substAffine_sound (p : Poly) (origin : List ℚ) (dirs : List (List 
     (hp : ∀ t ∈ p, t.2.length = origin.length) (hd : ∀ d ∈ dirs, d.length = origin.length)
     (hs : s.length = dirs.length) :
     (p.substAffine origin dirs).eval s = p.eval (facetPoint origin dirs s) := by
-  sorry
+  -- `hd` is not needed: `getD` pads short direction vectors with 0 on both sides
+  have _h := hd; clear _h hd
+  exact eval_substAffine p origin dirs s hp hs
 
-/-- the one-sided trace of `u_h = Σ_i x[dof i] φ_i` on reference facet `f` at facet parameters `s` -/
-def traceAt (vals : List Poly) (fmaps : List (List ℚ × List (List ℚ))) (dof : Nat → Nat) (x : Nat → ℚ)
-    (f : Nat) (s : List ℚ) : ℚ :=
-  ((List.range vals.length).map (fun i =>
-    x (dof i) * (vals.getD i []).eval (facetPoint (fmaps.getD f ([], [])).1 (fmaps.getD f ([], [])).2 s))).sum
-
-/-- well-formedness of the generated data of one element (lengths) -/
-def WFElem (dim : Nat) (vals : List Poly) (fmaps : List (List ℚ × List (List ℚ))) : Prop :=
-  (∀ v ∈ vals, ∀ t ∈ v, t.2.length = dim) ∧ (∀ fm ∈ fmaps, fm.1.length = dim ∧ ∀ d ∈ fm.2, d.length = dim)
+/-- the restriction of a well-formed table entry, evaluated: `tr f i` at `s` is `φ_i` at `γ_f(s)` -/
+theorem eval_tr (dim : Nat) (vals : List Poly) (fmaps : List (List ℚ × List (List ℚ)))
+    (hwf : WFElem dim vals fmaps) (f i : Nat) (hf : f < fmaps.length) (hi : i < vals.length)
+    (s : List ℚ) (hs : s.length = ((fmaps.getD f ([], [])).2).length) :
+    (tr vals fmaps f i).eval s
+      = (vals.getD i []).eval (facetPoint (fmaps.getD f ([], [])).1 (fmaps.getD f ([], [])).2 s) := by
+  have hfm : fmaps.getD f ([], []) ∈ fmaps := by
+    rw [List.getD_eq_getElem fmaps _ hf]; exact List.getElem_mem hf
+  have hv : vals.getD i [] ∈ vals := by
+    rw [List.getD_eq_getElem vals _ hi]; exact List.getElem_mem hi
+  have h1 := hwf.2 _ hfm
+  exact C03_substAffine_sound _ _ _ s (fun t ht => by rw [hwf.1 _ hv t ht, h1.1])
+    (fun d hd => by rw [h1.2 d hd, h1.1]) hs
 
 /-- **functions not attached to the closure of a facet do not contribute to the trace** (exact version,
     `tol = 0`): if the table check passes with tolerance 0, the trace only involves the functions with a key -/
@@ -60,7 +76,11 @@ theorem C03_unattached_vanish (dim : Nat) (vals : List Poly) (fmaps : List (List
     (hk : (keys.getD f []).getD i none = none) (s : List ℚ)
     (hs : s.length = ((fmaps.getD f ([], [])).2).length) :
     (vals.getD i []).eval (facetPoint (fmaps.getD f ([], [])).1 (fmaps.getD f ([], [])).2 s) = 0 := by
-  sorry
+  obtain ⟨_, _, hent⟩ := checkTraceTable_spec vals fmaps keys 0 h
+  have hc := entryOk_none vals fmaps keys 0 (f, i) hk (hent f i hf hi)
+  rw [← eval_tr dim vals fmaps hwf f i hf hi s hs,
+    C09.C09_eval_congr_coeff _ _ (close_zero_coeff _ _ hc) s]
+  rfl
 
 /-- **equal keys, equal traces** (exact version): functions carrying the same key on two facets have the
     same restriction, as functions of the facet parameters -/
@@ -73,7 +93,15 @@ theorem C03_equal_keys_equal_traces (dim : Nat) (vals : List Poly) (fmaps : List
     (hs' : s.length = ((fmaps.getD f' ([], [])).2).length) :
     (vals.getD i []).eval (facetPoint (fmaps.getD f ([], [])).1 (fmaps.getD f ([], [])).2 s)
       = (vals.getD i' []).eval (facetPoint (fmaps.getD f' ([], [])).1 (fmaps.getD f' ([], [])).2 s) := by
-  sorry
+  obtain ⟨_, _, hent⟩ := checkTraceTable_spec vals fmaps keys 0 h
+  obtain ⟨gj, hg, hc⟩ := entryOk_some vals fmaps keys 0 (f, i) k hk (hent f i hf hi)
+  obtain ⟨gj', hg', hc'⟩ := entryOk_some vals fmaps keys 0 (f', i') k hk' (hent f' i' hf' hi')
+  -- both are compared with the same first pair
+  have hgg : gj' = gj := Option.some.inj (hg'.symm.trans hg)
+  rw [hgg] at hc'
+  rw [← eval_tr dim vals fmaps hwf f i hf hi s hs, ← eval_tr dim vals fmaps hwf f' i' hf' hi' s hs',
+    C09.C09_eval_congr_coeff _ _ (close_zero_coeff _ _ hc) s,
+    C09.C09_eval_congr_coeff _ _ (close_zero_coeff _ _ hc') s]
 
 /-- **H1 continuity across a shared facet** (exact version).  Two cells see the shared facet as their
     local facets `f` and `f'`; `dof`, `dof'` are their local-to-global DOF maps.  If functions with equal
@@ -89,7 +117,58 @@ theorem C03_h1_continuous (dim : Nat) (vals : List Poly) (fmaps : List (List ℚ
     (x : Nat → ℚ) (s : List ℚ) (hs : s.length = ((fmaps.getD f ([], [])).2).length)
     (hs' : s.length = ((fmaps.getD f' ([], [])).2).length) :
     traceAt vals fmaps dof x f s = traceAt vals fmaps dof' x f' s := by
-  sorry
+  obtain ⟨hlen, hrows, _⟩ := checkTraceTable_spec vals fmaps keys 0 h
+  obtain ⟨hnd, hsame⟩ := checkKeys_spec keys hkeys
+  -- the two rows of the key table
+  have hrm : keys.getD f [] ∈ keys := by
+    rw [List.getD_eq_getElem keys _ (hlen ▸ hf)]; exact List.getElem_mem _
+  have hrm' : keys.getD f' [] ∈ keys := by
+    rw [List.getD_eq_getElem keys _ (hlen ▸ hf')]; exact List.getElem_mem _
+  have hrl := hrows _ hrm
+  have hrl' := hrows _ hrm'
+  -- the same keys, each once: the key lists are permutations of each other
+  have hperm : ((keys.getD f []).filterMap id).Perm ((keys.getD f' []).filterMap id) :=
+    (List.perm_ext_iff_of_nodup (hnd _ hrm) (hnd _ hrm')).mpr (hsame _ hrm _ hrm')
+  -- the contribution of key `k`, read off on the side of `f'`
+  let j : Nat → Nat := fun k => (keys.getD f' []).idxOf (some k)
+  let c : Nat → ℚ := fun k => x (dof' (j k)) *
+    (vals.getD (j k) []).eval (facetPoint (fmaps.getD f' ([], [])).1 (fmaps.getD f' ([], [])).2 s)
+  have hj : ∀ k, k ∈ (keys.getD f' []).filterMap id →
+      j k < vals.length ∧ (keys.getD f' []).getD (j k) none = some k := fun k hk => by
+    have := idxOf_spec _ k hk
+    exact ⟨hrl' ▸ this.1, this.2⟩
+  have hL : traceAt vals fmaps dof x f s = (((keys.getD f []).filterMap id).map c).sum := by
+    unfold traceAt
+    rw [← hrl]
+    refine sum_by_keys _ _ c (fun i hi hk => ?_) (fun i k hi hk => ?_)
+    · rw [C03_unattached_vanish dim vals fmaps keys hwf h f i hf (hrl ▸ hi) hk s hs, mul_zero]
+    · have hi' : i < vals.length := hrl ▸ hi
+      obtain ⟨hjl, hjk⟩ := hj k ((hsame _ hrm _ hrm' k).mp (mem_filterMap_of_getD _ i k hk))
+      show x (dof i) * _ = x (dof' (j k)) * _
+      rw [hmatch i (j k) k hi' hjl hk hjk,
+        C03_equal_keys_equal_traces dim vals fmaps keys hwf h f i f' (j k) k hf hi' hf' hjl hk hjk
+          s hs hs']
+  have hR : traceAt vals fmaps dof' x f' s = (((keys.getD f' []).filterMap id).map c).sum := by
+    unfold traceAt
+    rw [← hrl']
+    refine sum_by_keys _ _ c (fun i hi hk => ?_) (fun i k hi hk => ?_)
+    · rw [C03_unattached_vanish dim vals fmaps keys hwf h f' i hf' (hrl' ▸ hi) hk s hs', mul_zero]
+    · have hi' : i < vals.length := hrl' ▸ hi
+      have hkm' := mem_filterMap_of_getD _ i k hk
+      obtain ⟨hjl, hjk⟩ := hj k hkm'
+      -- a function of `f` with the same key links the two DOFs of `f'`
+      obtain ⟨i0l, i0k⟩ := idxOf_spec _ k ((hsame _ hrm _ hrm' k).mpr hkm')
+      have i0l' : (keys.getD f []).idxOf (some k) < vals.length := hrl ▸ i0l
+      show x (dof' i) * _ = x (dof' (j k)) * _
+      rw [← hmatch _ i k i0l' hi' i0k hk, hmatch _ (j k) k i0l' hjl i0k hjk,
+        C03_equal_keys_equal_traces dim vals fmaps keys hwf h f' i f' (j k) k hf' hi' hf' hjl hk hjk
+          s hs' hs']
+  rw [hL, hR]
+  exact (hperm.map c).sum_eq
+
+theorem shapeTol_nonneg : (0 : ℚ) ≤ Gen.Shapes.shapeTol := by
+  unfold Gen.Shapes.shapeTol
+  exact Rat.mkRat_nonneg (by norm_num) _
 
 /-- the generated tolerance is what the kernel checked; for elements whose traced coefficients are exact
     rationals the check also passes with tolerance 0 whenever it passes with a tolerance below the
@@ -97,8 +176,8 @@ theorem C03_h1_continuous (dim : Nat) (vals : List Poly) (fmaps : List (List ℚ
     `checkTraceTable_mono` -/
 theorem C03_checkTraceTable_mono (vals : List Poly) (fmaps : List (List ℚ × List (List ℚ)))
     (keys : List (List (Option Nat))) (tol tol' : ℚ) (hle : tol ≤ tol')
-    (h : checkTraceTable vals fmaps keys tol = true) : checkTraceTable vals fmaps keys tol' = true := by
-  sorry
+    (h : checkTraceTable vals fmaps keys tol = true) : checkTraceTable vals fmaps keys tol' = true :=
+  checkTraceTable_mono vals fmaps keys tol tol' hle h
 
 /-- **approximate version for the generated elements** (tolerance `shapeTol = 2^-40`): for every element of
     the generated table, functions without key are small on the facet and functions with equal keys
@@ -115,7 +194,23 @@ theorem C03_generated_traces (E : List Poly × List (List ℚ × List (List ℚ)
         ((((E.1.getD i []).substAffine (E.2.1.getD f ([], [])).1 (E.2.1.getD f ([], [])).2).length
           + ((E.1.getD i' []).substAffine (E.2.1.getD f' ([], [])).1 (E.2.1.getD f' ([], [])).2).length
           + 2 * (E.1.length * E.2.1.length) : Nat) : ℚ) := by
-  sorry
+  have htol : (0 : ℚ) ≤ Gen.Shapes.shapeTol := shapeTol_nonneg
+  obtain ⟨_, _, hent⟩ := checkTraceTable_spec E.1 E.2.1 E.2.2 _ (Gen.Shapes.traceElements_ok E hE)
+  obtain ⟨gj, hg, hc⟩ := entryOk_some E.1 E.2.1 E.2.2 _ (f, i) k hk (hent f i hf hi)
+  obtain ⟨gj', hg', hc'⟩ := entryOk_some E.1 E.2.1 E.2.2 _ (f', i') k hk' (hent f' i' hf' hi')
+  have hgg : gj' = gj := Option.some.inj (hg'.symm.trans hg)
+  rw [hgg] at hc'
+  -- both traces are coefficient-wise close to the trace of the first pair carrying the key, hence
+  -- to each other (exponent vectors occurring only in the first pair's trace contribute nothing)
+  have hcl := close_trans _ _ _ _ _ hc hc' htol htol
+  have hb := C09.C09_close_sound _ _ _ hcl s hs
+  refine le_trans hb ?_
+  rw [← two_mul]
+  refine mul_le_mul_of_nonneg_left ?_ (mul_nonneg (by norm_num) htol)
+  have : (tr E.1 E.2.1 (f, i).1 (f, i).2).length + (tr E.1 E.2.1 (f', i').1 (f', i').2).length
+      ≤ (tr E.1 E.2.1 (f, i).1 (f, i).2).length + (tr E.1 E.2.1 (f', i').1 (f', i').2).length
+        + 2 * (E.1.length * E.2.1.length) := Nat.le_add_right _ _
+  exact_mod_cast this
 
 /-- non-vacuity: the generated table is not empty and P2 on the triangle is in it -/
 example : Gen.Shapes.traceElements ≠ [] := by decide
